@@ -71,6 +71,8 @@ struct Inner {
     locks: BTreeSet<PathBuf>,
     /// remaining successful `write` calls before every write fails (None = unlimited)
     write_budget: Option<u64>,
+    /// order of `list_dir` results: 0 sorted, 1 reversed, 2 rotated
+    list_order: u8,
     /// contents this filesystem started with (crash images / snapshots); `image_at` replays the
     /// operation log on top of it
     base_files: BTreeMap<PathBuf, Vec<u8>>,
@@ -135,6 +137,9 @@ impl SimFs {
     pub fn set_fault(&self, plan: Option<FaultPlan>) {
         let mut g = self.inner.lock();
         g.fault = plan;
+    }
+    pub fn set_list_order(&self, o: u8) {
+        self.inner.lock().list_order = o;
     }
     pub fn set_write_budget(&self, b: Option<u64>) {
         self.inner.lock().write_budget = b;
@@ -501,6 +506,17 @@ impl FileSystem for SimFs {
             }
         }
         out.sort();
+        // the trait promises no order: optionally hand the entries back in another (deterministic) order
+        match g.list_order {
+            1 => out.reverse(),
+            2 => {
+                let n = out.len();
+                if n > 1 {
+                    out.rotate_left(n / 2);
+                }
+            }
+            _ => {}
+        }
         Ok(out)
     }
     fn open_file(&self, path: &Path) -> io::Result<Box<dyn ReadonlyRandomAccessFile>> {
